@@ -194,8 +194,12 @@ func ExploreScenario(t *testing.T, s *Scenario, o HOpts, c *Collector) {
 			s.Twin(t, s, h, explore.Choices(runOf(ch)))
 		}
 		c.R.Scans += h.Scans
+		covName := s.Name
+		if s.CovName != "" {
+			covName = s.CovName
+		}
 		for k, v := range h.Cov {
-			c.R.Cov[s.Name+"."+k] += v
+			c.R.Cov[covName+"."+k] += v
 		}
 		if o.Nontrivial != nil {
 			for _, k := range o.Nontrivial(h) {
